@@ -3,6 +3,8 @@ package c18
 
 import (
 	"fmt"
+	"math/big"
+	"regexp"
 	"sort"
 	"strconv"
 	"strings"
@@ -396,7 +398,9 @@ func genCase(t *rapid.T) Case {
 		str := func() *sg.TypeSpec { return &sg.TypeSpec{Name: "string"} }
 		l := func(n string) *sg.Node { return &sg.Node{Kind: "leaf", Name: n, Type: str()} }
 		// ... and over leaves of 64-bit types, whose values differ in the last digit only, beyond what a float64 tells apart
-		num := func(n, typ string, fd int) *sg.Node { return &sg.Node{Kind: "leaf", Name: n, Type: &sg.TypeSpec{Name: typ, FD: fd}} }
+		num := func(n, typ string, fd int) *sg.Node {
+			return &sg.Node{Kind: "leaf", Name: n, Type: &sg.TypeSpec{Name: typ, FD: fd}}
+		}
 		gl := &sg.Node{Kind: "list", Name: "gu-list", Key: "k", Uniques: []string{"port10", "addr/v10 addr/v4", "n64", "i64 addr/d64"},
 			Kids: []*sg.Node{l("k"), l("port2"), l("port9"), l("port10"), l("port100"), num("n64", "uint64", 0), num("i64", "int64", 0),
 				{Kind: "container", Name: "addr", Kids: []*sg.Node{l("v4"), l("v6"), l("v10"), num("d64", "decimal64", 2)}}}}
@@ -547,14 +551,14 @@ func genCase(t *rapid.T) Case {
 			}
 			big := g.Chance(1, 2, "uniqbig")
 			if g.Chance(3, 4, "uniqn64") {
-				pool := []string{"9007199254740992", "9007199254740993", "9007199254740994", "18446744073709551615", "18446744073709551614", "7"}
+				pool := []string{"9007199254740992", "9007199254740993", "9007199254740994", "18446744073709551615", "18446744073709551614", "7", "+7", "007", "0", "00"}
 				if big {
 					pool = pool[:3]
 				}
 				e.Kids = append(e.Kids, &D{Name: "n64", Vals: []string{pool[g.Pick(len(pool), "uniqn64val")]}})
 			}
 			if g.Chance(3, 4, "uniqi64") {
-				pool := []string{"-9007199254740993", "-9007199254740992", "9223372036854775807", "9223372036854775806", "7"}
+				pool := []string{"-9007199254740993", "-9007199254740992", "9223372036854775807", "9223372036854775806", "7", "+7", "-0", "0", "-07", "-7"}
 				if big {
 					pool = pool[:2]
 				}
@@ -568,7 +572,7 @@ func genCase(t *rapid.T) Case {
 					}
 				}
 				if g.Chance(3, 4, "uniqd64") {
-					pool := []string{"90071992547409.93", "90071992547409.92", "1.50", "1.25"}
+					pool := []string{"90071992547409.93", "90071992547409.92", "1.50", "1.25", "1.5", "+1.5", "01.50", "1", "1.0", "-0.0", "0"}
 					if big {
 						pool = pool[:2]
 					}
@@ -824,13 +828,52 @@ func resolve(schemaKids []*sg.Node, data []*D, path []string) *string {
 	if d == nil {
 		return nil
 	}
+	var sn *sg.Node
+	var look func(kids []*sg.Node)
+	look = func(kids []*sg.Node) {
+		for _, k := range kids {
+			if k.Kind == "choice" || k.Kind == "case" {
+				look(k.Kids)
+			} else if k.Name == path[0] && sn == nil {
+				sn = k
+			}
+		}
+	}
+	look(schemaKids)
 	if len(path) == 1 {
 		if len(d.Vals) == 0 {
 			return nil
 		}
-		return &d.Vals[0]
+		v := d.Vals[0]
+		if sn != nil && sn.Type != nil {
+			v = valueKey(sn.Type.Name, v)
+		}
+		return &v
 	}
-	return resolve(nil, d.Kids, path[1:])
+	if sn == nil {
+		return resolve(nil, d.Kids, path[1:])
+	}
+	return resolve(sn.Kids, d.Kids, path[1:])
+}
+
+var numRe = regexp.MustCompile(`^[+-]?[0-9]+(\.[0-9]+)?$`)
+
+// valueKey: unique compares values, not spellings (RFC 6020 7.8.3): the integers and decimals of one value get one key
+// (computed with math/big, independently of the implementation); everything else is its own key.
+func valueKey(typ, v string) string {
+	switch typ {
+	case "int8", "int16", "int32", "int64", "uint8", "uint16", "uint32", "uint64":
+		if numRe.MatchString(v) && !strings.Contains(v, ".") {
+			z, _ := new(big.Int).SetString(strings.TrimPrefix(v, "+"), 10)
+			return z.String()
+		}
+	case "decimal64":
+		if numRe.MatchString(v) {
+			r, _ := new(big.Rat).SetString(strings.TrimPrefix(v, "+"))
+			return "rat:" + r.RatString()
+		}
+	}
+	return v
 }
 
 // ---- reference: default decoration --------------------------------------------------------
@@ -1028,7 +1071,7 @@ func nodes(ds []*D) []datanode.DataNode {
 var structural = fw.Register(&fw.Prop[Case]{
 	ID: "C18", Name: "structural",
 	Rule: "schemas from the module-set generator (mandatory leaves and choices, nested non-presence containers, presence containers, choices within cases, default cases, lists and leaf-lists with min/max, " +
-		"unique sets (also over uint64, int64 and decimal64 leaves whose values differ in the last digit beyond 2^53), leaf and typedef defaults; no must/when/leafref) and data trees drawn over the harness's inlined model (random presence of every node, at most one case per choice, 0-6 list entries, values " +
+		"unique sets (also over uint64, int64 and decimal64 leaves: values that differ in the last digit beyond 2^53, and several spellings of one value - +7, 007, 1.50, 1.5 - which are one value to a unique statement), leaf and typedef defaults; no must/when/leafref) and data trees drawn over the harness's inlined model (random presence of every node, at most one case per choice, 0-6 list entries, values " +
 		"from an alphabet with '/', blank, ':' and the middle dot); oracle: reference set of violated RFC 6020 constraints - ValidateSchema must report an error iff it is non-empty - and reference default " +
 		"decoration - the walk of AddDefaults must equal it (children unordered), explicit data unchanged, decorating twice equals once; non-trivial = the tree has data or a violation",
 	Gen: genCase, Check: checkCase,
